@@ -5,7 +5,7 @@ import json
 import os
 import time
 
-from core import (Infra, gen_histories, monitor, run_hist, rundir, save_replay, seed, spec_copy, split_known, tier,
+from core import (Infra, gen_histories, select_covering, monitor, run_hist, rundir, save_replay, seed, spec_copy, split_known, tier,
                   tla_set, to_harness_histories, write_evidence)
 
 ALL_ACTIONS = ["mintquote", "settle", "notify", "pollmint", "mint", "swap", "meltquote", "melt", "pollmelt",
@@ -90,7 +90,7 @@ def evaluate(prop, histories, trace, res, d, extra_samples=None):
 
 def check(prop, profile=None, num=None, max_ops=16, fees=(0, 100, 1000), probe="all", policy="pct1", gen_overrides=None,
           extra_histories=None, level="model_checking", rule=None, assumptions=None, mpp=False, collect=False,
-          given=None, extra_cov=None, malformed=0, http=False, limits=None, mpp_set=(False,), with_model=False, sub=""):
+          given=None, extra_cov=None, malformed=0, http=False, limits=None, mpp_set=(False,), with_model=False, sub="", pool=5):
     t0 = time.time()
     d = rundir("%s%s_%s" % (prop, sub, tier()))
     sd = spec_copy(d)
@@ -101,9 +101,12 @@ def check(prop, profile=None, num=None, max_ops=16, fees=(0, 100, 1000), probe="
     if gen_overrides:
         c.update(gen_overrides)
     if given is not None:
-        histories, gen_dt = given, 0.0
+        histories, gen_dt, selection = given, 0.0, None
     else:
-        hs, gen_dt = gen_histories(sd, c, num, max_ops + 3, seed())
+        # a pool several times the size wanted, of which the behaviours that add coverage (operation x model's expected causes x
+        # request / state class) are kept first
+        hs, gen_dt = gen_histories(sd, c, num * pool, max_ops + 3, seed())
+        hs, selection = select_covering(hs, num)
         histories = to_harness_histories(hs, defaults={"probe": probe, "policy": policy, "malformed": malformed, "http": http})
     if extra_histories:
         base = len(histories) + 1
@@ -143,7 +146,7 @@ def check(prop, profile=None, num=None, max_ops=16, fees=(0, 100, 1000), probe="
                          "MintAPI (MintTrace.tla). distinct_nontrivial counts distinct (operation, request facts, accepted?) "
                          "triples of state-changing operations, queries excluded"),
         "events_by_kind": kinds, "accepted": res["stats"]["accepted"], "rejected": res["stats"]["rejected"],
-        "generator_constants": c, "tlc_generate_s": round(gen_dt, 2), "tlc_validate_s": round(res["wall_s"], 2),
+        "generator_constants": c, "coverage_selection": selection, "tlc_generate_s": round(gen_dt, 2), "tlc_validate_s": round(res["wall_s"], 2),
         "tags_of_other_properties": sorted({"%s %s" % (p, k) for (p, k) in foreign}),
         "known_findings_seen": [k["key"] for k in known],
         "exhaustive": False,
